@@ -648,6 +648,13 @@ func (m *model) observe() {
 				m.markServed(vt.QueueName, o.InvocationIDs, now)
 			}
 		}
+		if attempt == "retry" && vt.Stage == remoteexecution.ExecutionStage_QUEUED {
+			for _, e := range w.execs {
+				if e.ActionID == t.actionID && vt.ExpectedDuration != e.Plan.RetryExpected {
+					w.failf("C04/C07: the learner answered the failure of %s with an expected duration of %s for the retry, but the re-queued task carries %s", t.actionID, e.Plan.RetryExpected, vt.ExpectedDuration)
+				}
+			}
+		}
 		t.prevStage = vt.Stage
 		t.prevQueue = vt.QueueName
 		t.prevWorkerKey = vt.WorkerKey
